@@ -97,6 +97,7 @@ PT_LEMMAS = [
     "secs(d) < secs(PT(self.project, PIdx(self.project, d))) + PG(self.project) and PIdx(self.project, d) >= 0))",
     "forall(d, 'DT', forall(e, 'DT', implies(d <= e, PIdx(self.project, d) <= PIdx(self.project, e))))",
     "secs(PT(self.project, 0)) == secs(PStart(self.project))",
+    "PIdx(self.project, PStart(self.project)) == 0",
 ]
 contract(
     "lemma::project_slot_algebra", props=["C04", "C06", "C08", "C11", "C17"],
@@ -109,7 +110,8 @@ contract(
 _AllDeps = "getdeps"   # bound below through a site check on the call of getAllDependencies
 
 _sched_common_req = [
-    ("not-scheduled", "not self.scheduled and self.currentSlotIdx is None"),
+    ("not-scheduled", "not self.scheduled and self.currentSlotIdx is None and not Sched(self.property, self.scenarioIdx) "
+                      "and not self.isRunAway"),
     ("project", "PG(self.project) >= 1 and self.project.attributes['start'] is not None and self.project.attributes['end'] is not None "
                 "and PStart(self.project) <= some(self.project.attributes['end'])"),
     ("pboard", "implies(self.project.scoreboard is not None, Upper(self.project) < len(some(self.project.scoreboard).sb))"),
@@ -138,7 +140,7 @@ contract(
         ("no-gaplength", "forall(d, 'Ref:Dep', implies(d.is_dict, d.gaplength is None))"),
     ],
     assumes=K.anc_axioms_all("Resource") + L.anc_axioms("self.property") + PT_LEMMAS,
-    hide={"PT": DT, "PIdx": Int},
+    hide={"PT": (DT, [Ref("Project"), Int]), "PIdx": (Int, [Ref("Project"), DT])},
     ensures=[
         # C11: either placed inside the horizon, or reported as run-away -- never an exception
         ("total", "iff(result, Sched(self.property, self.scenarioIdx)) and implies(not result, self.isRunAway)"),
@@ -146,6 +148,7 @@ contract(
         ("after-own-deps", "implies(result, TStart(self.property, self.scenarioIdx) is not None and "
                            "forall(k, 0, NDeps(self.property, self.scenarioIdx), "
                            "implies(DepTask(some(Deps(self.property, self.scenarioIdx))[k]) is not None and "
+                           "some(DepTask(some(Deps(self.property, self.scenarioIdx))[k])) != self.property and "
                            "DepTime(some(Deps(self.property, self.scenarioIdx))[k], self.scenarioIdx) is not None, "
                            "secs(some(TStart(self.property, self.scenarioIdx))) >= "
                            "secs(some(DepTime(some(Deps(self.property, self.scenarioIdx))[k], self.scenarioIdx))) + "
@@ -153,6 +156,7 @@ contract(
         ("after-inherited-deps", "implies(result, forall(j, implies(j >= 0 and anc(self.property, j) is not None, "
                                  "forall(k, 0, NDeps(some(anc(self.property, j)), self.scenarioIdx), "
                                  "implies(DepTask(some(Deps(some(anc(self.property, j)), self.scenarioIdx))[k]) is not None and "
+                                 "some(DepTask(some(Deps(some(anc(self.property, j)), self.scenarioIdx))[k])) != self.property and "
                                  "DepTime(some(Deps(some(anc(self.property, j)), self.scenarioIdx))[k], self.scenarioIdx) is not None, "
                                  "secs(some(TStart(self.property, self.scenarioIdx))) >= "
                                  "secs(some(DepTime(some(Deps(some(anc(self.property, j)), self.scenarioIdx))[k], self.scenarioIdx))) + "
